@@ -52,7 +52,7 @@ def P(fields):
 
 
 def inconclusive(kind):
-    return kind in ("oof", "timeout", "modeltimeout", "modelcrash")
+    return kind in ("oof", "timeout", "modeltimeout", "modelcrash", "timeout-skipped")
 
 # ---------------------------------------------------------------- one stream
 
@@ -105,7 +105,9 @@ def run_stream(workdir, header, case_lines, proj, oracles, sr, tag):
         if ik == "badvariant":
             raise RuntimeError("generator produced a case the host rejects: " + cl[:200])
         if inconclusive(ik) or inconclusive(mk):
-            if ik == "timeout" and mk in ("oof", "modeltimeout"):
+            if ik == "timeout-skipped":
+                sr.inconclusive += 1       # not run: the job had already timed out repeatedly
+            elif ik == "timeout" and mk in ("oof", "modeltimeout"):
                 sr.inconclusive += 1       # both sides did not terminate
             elif inconclusive(ik) != inconclusive(mk) and not (mk == "oof"):
                 sr.disagree.append((cl, il, ml, "one side terminates, the other does not (%s vs %s)" % (ik, mk)))
